@@ -9,7 +9,8 @@ function annet.api._diff_and_patch and Orderer.order_config are run
       interpreter per job),
 and the (diff, command paths of the patch, ordered config) triples must be equal.  Around every in-process computation deep
 snapshots (copy.deepcopy) of old, new and of the compiled rulebook are compared structurally with the objects afterwards
-(regex objects by pattern/flags, functions by qualified name); the computation is repeated with the same shared compiled ACL
+(regex objects by pattern/flags, functions by qualified name), and the attributes of the compiled ACL rules except the
+scratch `match` likewise; the computation is repeated with the same shared compiled ACL
 objects; the Diff handed to make_pre/make_patch is compared with its snapshot.
 
 Independent expectations (no code under test involved): equality of two runs of the real code in different histories, equality
@@ -85,6 +86,14 @@ interface *
 """
 ORDER_SMALL = "d\nblk\n    c\n    sub\n        b\n    a\nundo a %order_reverse\na\nm\n"
 
+ACLS_OVERLAP = [
+    "interface * %prio=10\n    mtu %cant_delete=1\n    description ~\ninterface 100GE1/0/1\n    mtu\n    description ~ %cant_delete=1\n",
+    "interface * %prio=10 %generator_names=g1\n    mtu %cant_delete=1 %generator_names=g1\n    description ~ %generator_names=g1\n"
+    "interface */100GE.*/ %prio=5 %generator_names=g2\n    mtu %cant_delete=0 %generator_names=g2\n"
+    "interface 100GE1/0/1 %generator_names=g3\n    mtu %cant_delete=1,0 %generator_names=g3,g4\n    description ~ %cant_delete=1 %generator_names=g3\n",
+    "interface 100GE1/0/1\n    mtu\n    ~ %global\ninterface * %cant_delete=0\n    mtu %cant_delete=1\n    description ~ %cant_delete=1\n"
+    "interface */\\d+GE.*/ %cant_delete=0\n    description ~\n",
+]
 ACLS_R1 = [None, "a *\nblk *\n    a *\n    sub *\n        ~\nm *\nn *\n", "blk *\n    ~ %global\nb *\nc\nm *\np *\nq\n", "~ %global\n"]
 
 
@@ -202,6 +211,34 @@ def all_jobs(tier, seed):
             old, new = _huawei_pair(rnd)
             jobs.append(dict(src="R_HUAWEI", model=model, rb=dict(vendor=vendor, rul=R_HUAWEI, order="bgp\n    peer * as-number\n    undo peer * %order_reverse\ninterface\n"),
                              old=old, new=new, acl=(None if k % 3 else "bgp *\n    ~ %global\n")))
+    # ACLs with overlapping blocks: a row matched by two or three blocks that contain same-named child rules with different
+    # list-valued parameters (%cant_delete, %generator_names).  _select_match merges the children of all matching compiled
+    # (cached, shared) rules; a job whose rows match several blocks runs as `prelude` right before a job whose rows match one.
+    rnd = g.rng(seed, "c20aclov")
+    ifaces = ["100GE1/0/1", "100GE1/0/2", "10GE1/0/3"]
+    for k in range(16 if quick else 160):
+        def cfg(names, full):
+            rows = []
+            for i in names:
+                ch = []
+                if full or rnd.random() < 0.5:
+                    ch.append(["mtu %s" % rnd.choice(["1500", "9000"]), []])
+                if full or rnd.random() < 0.5:
+                    ch.append(["description %s" % rnd.choice(["u", "v"]), []])
+                rows.append(["interface " + i, ch])
+            return rows
+        acl = ACLS_OVERLAP[k % len(ACLS_OVERLAP)]
+        for vendor, model, rul in (("huawei", "Huawei", R_HUAWEI), ("cisco", "Cisco", R_CISCO), ("h3c", "H3C", R_HUAWEI)):
+            rb = dict(vendor=vendor, rul=rul, order="")
+            # A: the interface every block matches loses its rows;  B: an interface only the generic block matches does
+            a_job = dict(src="ACL_OVERLAP_A", model=model, rb=rb, old=cfg(ifaces[:1], True) + cfg(ifaces[1:], False),
+                         new=[["interface " + ifaces[0], []]], acl=acl)
+            b_names = [rnd.choice(ifaces[1:])]
+            b_job = dict(src="ACL_OVERLAP_B", model=model, rb=rb, old=cfg(b_names, True), new=[["interface " + b_names[0], []]], acl=acl,
+                         prelude=[a_job])
+            jobs.append(a_job)
+            jobs.append(b_job)
+            jobs.append(dict(src="ACL_OVERLAP_R", model=model, rb=rb, old=cfg(ifaces, False), new=cfg(ifaces, False), acl=acl))
     # rows whose shipped rules depend on the hardware model (mako branches of huawei.rul): the per-hardware rulebook cache
     rnd = g.rng(seed, "c20hwsens")
     for k in range(3 if quick else 30):
@@ -301,12 +338,28 @@ def first_difference(a, b, path="$"):
                     return first_difference(x, y, "%s[%d]" % (path, i))
             if len(a[1]) != len(b[1]):
                 return path + "{len}", len(a[1]), len(b[1])
+    elif isinstance(a, (tuple, list)) and len(a) == len(b):
+        for i, (x, y) in enumerate(zip(a, b)):
+            if x != y:
+                return first_difference(x, y, "%s<%d>" % (path, i))
     if a != b:
         return path, a, b
     return None
 
 
 # ---------------------------------------------------------------------------------------------------------------------
+def acl_canon(rules):
+    """list-valued and scalar attrs of every compiled ACL rule, the scratch field `match` excepted"""
+    if rules is None:
+        return None
+    out = []
+    for scope in ("local", "global"):
+        for raw, rule in rules[scope].items():
+            attrs = {k: v for k, v in rule["attrs"].items() if k != "match"}
+            out.append((scope, raw, rule["type"], canon(attrs), acl_canon(rule["children"]) if rule.get("children") else None))
+    return ("list", out)
+
+
 def bump_expectation(job, result):
     """rule `m * %logic=zzsynth.bump`: every removal of an m row is '<neg> m <key> !' (exactly one ' !')"""
     if job["src"] != "R_MUT" or "error" in result:
@@ -327,7 +380,13 @@ def in_process_checks(job):
     objs = _objects(job)
     hw, rb, old, new, acl = objs
     snaps = [copy.deepcopy(old), copy.deepcopy(new), copy.deepcopy(rb)]
+    acl_before = acl_canon(copy.deepcopy(acl))
     res = compute(job, objs)
+    acl_after = acl_canon(acl)
+    if acl_before != acl_after:
+        where, x, y = first_difference(acl_before, acl_after)
+        fails.append(("bounded:C20:acl-rule-attrs-modified", "an attribute (other than the scratch `match`) of a compiled, shared ACL rule "
+                      "differs from its deep snapshot after the computation at %s" % where, _short(x), _short(y)))
     for name, snap, obj in zip(("old", "new", "rulebook"), snaps, (old, new, rb)):
         a, b = canon(snap), canon(obj)
         if a != b:
@@ -434,6 +493,8 @@ def run(tier="quick", seed=0, part=0, nparts=1):
 
     seq_results = []
     for pos, k in enumerate(seq):
+        for pj in jobs[k].get("prelude", []):      # history only; the fresh process computes the job alone
+            compute(pj)
         res, fails = in_process_checks(jobs[k])
         seq_results.append(res)
         for (key, text, exp, act) in fails:
@@ -463,7 +524,9 @@ def run(tier="quick", seed=0, part=0, nparts=1):
                      "synthetic jobs: one rulebook text with mutating logics (zzsynth.bump / zzsynth.flip, common.default_instead_undo, "
                      "undo_redo; rows unknown to the rulebook) on 6 hardware models of 5 vendors x 4 ACLs, a cisco text (cisco.misc.ssh_key, "
                      "no_ipv6_nd_suppress_ra, default_instead_undo) on cisco/nexus, a huawei text (huawei.bgp.undo_commit, huawei.bgp.peer, "
-                     "huawei.misc.undo_redo) on 3 models; each part runs its jobs twice in one seeded shuffled in-process sequence; "
+                     "huawei.misc.undo_redo) on 3 models; ACLs with 2-3 overlapping blocks (same-named children, different %cant_delete / "
+                     "%generator_names) on huawei/cisco/h3c with a several-blocks-match job run right before a one-block-matches job; "
+                     "each part runs its jobs twice in one seeded shuffled in-process sequence; "
                      "evaluation = one in-sequence result compared with the fresh-process result (zygote fork per job; "
                      "+ exec'ed interpreter per job for a sample); non-trivial = non-empty patch computed with a non-empty history; "
                      "distinct by job hash",
@@ -487,9 +550,13 @@ def replay(case):
         seq = list(range(len(jobs))) + list(range(len(jobs)))
         rnd.shuffle(seq)
         for k in seq[:case["position"] + 1]:
+            for pj in jobs[k].get("prelude", []):
+                compute(pj)
             res, fails = in_process_checks(jobs[k])
         job = jobs[seq[case["position"]]]
     else:
+        for pj in job.get("prelude", []):
+            compute(pj)
         res, fails = in_process_checks(job)
     fr = fresh_results([job], per_job_exec=True)[0]
     got = json.loads(json.dumps(res))
